@@ -41,11 +41,12 @@ def listed_segments(d):
     return segs[k:] + segs[:k]
 
 
-def neg_inf_listed_before_beyond_one(d):
+def listed_otherwise_than_constructor(d):
+    """from_dict diagram whose listing is not the one the constructors use ((1, inf), (-inf, 0), then ascending R)"""
     if d.get('listing') is None:
         return False
-    los = [lo for lo, hi, M in listed_segments(d)]
-    return los.index(-INF) < los.index(1.0)
+    n = len(natural_segments(d))
+    return d['listing'] % n != n - 1
 
 
 def diagram_lit(d):
